@@ -285,6 +285,12 @@ def run(R):
                 rem = zero = False
                 for os_ in sides:
                     for o in os_:
+                        # (desugared view: the closure of `limit.map(|l| l.saturating_sub(n))` is spliced in)
+                        if o.kind == "call" and re.search(r"usize>::(saturating_sub|checked_sub)$", short(o.call.name)) and len(o.call.args) == 2 and \
+                                all(a_.get("k") in ("copy", "move") for a_ in o.call.args) and \
+                                "limit" in F.provenance_fields(efv, o.call.args[0], depth=10) and \
+                                counter in F.provenance_fields(efv, o.call.args[1], depth=10):
+                            rem = True
                         if o.kind == "call" and short(o.call.name) == "core::option::Option::map" and \
                                 "limit" in F.provenance_fields(efv, o.call.args[0], depth=8):
                             for ck in (o.call.func.get("closure_args") or []):
